@@ -32,6 +32,23 @@ CHECKS = {
          "the orchestrator are compared per turn; failures are explained by necessary-feature ablation and per-layer attribution.",
     note="TTL clocks are the caches' own time_fn parameter bound to the simulated clock; fan-out/quality/hybrid are off here.",
     technique="deterministic simulation: differential cached/uncached execution over seeded mutation histories with simulated TTL clock"),
+ "C02": dict(level="exploration", ref="4/C02",
+    text="Two arms per seed: base config B and B+ with generated validator-accepted values inside 1-3 gated-off subtrees, same world "
+         "(where the gated code would have work), same ops, same simulated clock; utterances, all log files, snapshot bodies, a deep "
+         "state digest after every op and the set of files created are compared; differences are reduced to the necessary junk keys.",
+    note="The quantifier proper is over subtree contents (sampled); absence of artefacts is observed through the run's scratch file system.",
+    technique="deterministic simulation: differential execution B vs B+ with file-system observation over multi-turn histories"),
+ "C09": dict(level="exploration", ref="4/C09",
+    text="run_parallel, parallel T1 and the T2 shard fan-out run on a baton-passing thread scheduler: real worker threads, one runnable "
+         "at a time, a seeded choice at every task boundary and cache-lock operation decides who advances; two seeded schedules per "
+         "input are compared with the sequential path and with a reference model of the helper.",
+    note="Pre-emption points are task boundaries and cache-lock operations; stage code between them shares no state.",
+    technique="deterministic simulation: seeded baton-passing thread scheduler replacing the thread pool, differential vs sequential"),
+ "C20": dict(level="exploration", ref="4/C20",
+    text="Random subsets of the declared fail-soft sites are armed with one of 13 exception types (or garbage snapshot directories "
+         "for the boot loader); a twin run has those subsystems off/idle; the turn must return and its canonical records must equal the twin's.",
+    note="Sites are those guarded by try/except in run_turn, apply_changes, apply_quality and the sidecar writer; twins are defined per site (DESIGN 4/C20).",
+    technique="deterministic simulation: buggify fault sites + garbage-state injection, differential vs idle twin"),
 }
 
 NA = {
